@@ -418,11 +418,12 @@ func checkSeq(c seqCase) evid.Outcome {
 	if v == "" {
 		return evid.Outcome{NonTrivial: len(c.Cmds) >= 2, Class: cls}
 	}
-	// Known finding K5: DevVersionReq / DevUpgradeImageReq / DevDeleteImageReq (firmware management,
-	// downlink) compare their size with the length of the REST of the buffer, so the stream decoder
-	// rejects anything that follows one of them. The failure is attributed to that class iff, walking
+	// Known finding K5: DevVersionReq (firmware management, downlink) compares its size with the length
+	// of the REST of the buffer, so the stream decoder rejects anything that follows it (the same defect
+	// in DevUpgradeImageReq / DevDeleteImageReq was repaired in /repo; DevVersionReq's is pinned by the
+	// repository's own test "DevVersionReq invalid bytes"). The failure is attributed to that class iff, walking
 	// through the sequence, every decode error appears exactly when one more command is appended
-	// directly behind one of the three to a prefix that round-trips; the walk then restarts at the
+	// directly behind a DevVersionReq to a prefix that round-trips; the walk then restarts at the
 	// appended command, so that every command and every other adjacency is still checked.
 	if !decodeErr {
 		return evid.Fail("%s", v)
@@ -450,7 +451,7 @@ func checkSeq(c seqCase) evid.Outcome {
 	if hits == 0 {
 		return evid.Fail("%s", v)
 	}
-	return evid.Outcome{Violation: v + " [class K5: a fixed-length firmware-management request followed by another command]", Known: "K5", Class: cls + "/K5"}
+	return evid.Outcome{Violation: v + " [class K5: DevVersionReq followed by another command]", Known: "K5", Class: cls + "/K5"}
 }
 
 // ---------------------------------------------------------------------------
@@ -579,7 +580,7 @@ func TestProp(t *testing.T) {
 
 	evid.Rapid(r, t, "sequences",
 		"rapid: package x direction x 1..6 (90% >= 2) commands of that package and direction with in-range field values as in 'commands' (DataFragment only in last position), encoded with Commands.MarshalBinary. Oracle: no panic, no error, total length = sum of the specified sizes, Commands.UnmarshalBinary(direction) gives the same CIDs and field-by-field equal payloads. "+
-			"A decode error is attributed to known finding K5 iff it appears exactly when a command is appended directly behind a DevVersionReq / DevUpgradeImageReq / DevDeleteImageReq to a prefix that round-trips (the walk restarts at the appended command, so every command and every other adjacency of the sequence is still checked). Non-trivial: >= 2 commands.",
+			"A decode error is attributed to known finding K5 iff it appears exactly when a command is appended directly behind a DevVersionReq to a prefix that round-trips (the walk restarts at the appended command, so every command and every other adjacency of the sequence is still checked). Non-trivial: >= 2 commands.",
 		60000, 3500000, genSeq, checkSeq)
 
 	evid.Rapid(r, t, "multicast-keys",
